@@ -116,9 +116,10 @@ DRV_OP(vgate) {
     }
     rewrite_header(p, a[1], a[2], a[3]);
     nix::FileMode mode = modeOf(a[4]);
-    bool force = a[5] == "1";
+    // the flag word as given: Force is bit 0, whatever else is set
+    nix::OpenFlags flags = static_cast<nix::OpenFlags>(tokNat(a[5]));
     std::string r = guarded([&]() {
-        nix::File f = nix::File::open(p, mode, "hdf5", nix::Compression::Auto, force ? nix::OpenFlags::Force : nix::OpenFlags::None);
+        nix::File f = nix::File::open(p, mode, "hdf5", nix::Compression::Auto, flags);
         std::vector<int> v = f.version();
         size_t nb = f.blockCount();
         f.close();
